@@ -200,7 +200,7 @@ def py_parse_opb(text):
 
 
 def py_decode_lit(tok):
-    """{name} -> [True, name];  \overline{name} and {\overline{base}rest} -> [False, name]"""
+    r"""{name} -> [True, name];  \overline{name} and {\overline{base}rest} -> [False, name]"""
     tok = tok.strip()
     if tok.startswith('{\\overline{') and tok.endswith('}'):
         inner = tok[len('{\\overline{'):-1]
@@ -547,6 +547,362 @@ def build_thresholds(ctx, cnfgen, quick):
     return out
 
 
+# --------------------------------------------------------------------------
+# shapes: kinds of destination, file names that select (or merely resemble) a format, names outside ASCII
+# --------------------------------------------------------------------------
+def uni_formula(cnfgen, opb):
+    """the formula harness/c06.py UNICODE_CHILD builds in the child process"""
+    from cnfgen.formula.opb import OPB
+    F = (OPB if opb else cnfgen.CNF)(description='caf\xe9 α 数')
+    for nm in c06.UNI_NAMES:
+        F.new_variable(nm)
+    if opb:
+        F.add_constraint([(2, 1), (3, -2), (1, 3), '>=', 2])
+        F.add_constraint([(1, -4), (1, 5), '==', 1])
+    else:
+        F.add_clause([1, -2, 3])
+        F.add_clause([-4, 5])
+    return F
+
+
+def names_shown(text, fmt, labels):
+    """the variable names appear as they are in the varname comments of an OPB text"""
+    if fmt != 'opb':
+        return True
+    lines = text.split('\n')
+    return all(('* varname x%d %s' % (i + 1, nm)) in lines for i, nm in enumerate(labels))
+
+
+def judge_written(ctx, stream, descr, text, fmt, F, is_opb, names):
+    """content of a text whose format is already known to be the documented one"""
+    n, mem = F.number_of_variables(), mem_constraints(F, is_opb)
+    if fmt == 'opb':
+        ok = direct_opb(ctx, descr, text, n, mem, is_opb)
+        if ok and names and not names_shown(text, fmt, list(F.all_variable_labels())):
+            ctx.violation('counterexample', 'a variable name is not written as it is in the varname comments of the OPB text',
+                          dict(input=descr, text_start=text[:400]), True, site='to_opb_file', cls='unicode-name-changed')
+    elif fmt == 'latex':
+        direct_latex(ctx, descr, text, mem, is_opb, list(F.all_variable_labels(default_label_format='x_{}')), True)
+
+
+def run_shapes(ctx, cnfgen, quick):
+    import json
+    import os
+    import shutil
+    import tempfile
+    import time
+    from concurrent.futures import ThreadPoolExecutor
+    from cnfgen.formula.opb import OPB
+    CNF = cnfgen.CNF
+    t0 = time.time()
+    tmp = tempfile.mkdtemp(prefix='c12shapes-')
+
+    def plain_opb():
+        F = OPB(description='plain')
+        F.add_constraint([(2, 3), (1, -1), (10 ** 18, 4), '>=', 2])
+        F.add_constraint(['==', -1])
+        F.add_constraint([(1, 1), (2 ** 31, -2), '==', 2])
+        F.update_variable_number(6)
+        return F
+    forms = [('OPB, names outside ASCII', True, lambda: uni_formula(cnfgen, True), True), ('CNF, names outside ASCII', False, lambda: uni_formula(cnfgen, False), True),
+             ('OPB, plain', True, plain_opb, False), ('CNF, plain', False, lambda: CNF([[1, -2], [], [2, 3]], description='plain'), False)]
+    # ---- (1) every kind of destination x explicit / implicit format
+    for flabel, is_opb, mk, names in forms:
+        F = mk()
+        for dlabel, op, seen in c06.destinations(tmp, quick, extra_names=(b'bytes.tex', b'bytes.opb', 'a.cnf.tex', 'cover_vertex.opb')):
+            for request in (None, 'opb', 'latex'):
+                expected = documented_format('x' if seen is None or seen == 0 else seen, request, is_opb)
+                if expected == 'dimacs':
+                    continue            # property C06
+                descr = dict(formula=flabel, destination=dlabel, fileformat=request, export_varnames=names,
+                             names=list(F.all_variable_labels()) if names else None)
+                ctx.count('shapes-destination', (flabel, dlabel, request), True, sample=descr)
+                ctx.tally('shapes destination', dlabel.split(' named ')[0])
+                dest, close = op()
+                try:
+                    F.to_file(dest, fileformat=request, export_varnames=names)
+                    exc = None
+                except Exception as e:  # noqa
+                    exc = e
+                try:
+                    text = close()
+                except Exception as e:  # noqa
+                    text, exc = None, exc or e
+                if exc is not None:
+                    ctx.disagreements_checked += 1
+                    guessing = request is None and isinstance(exc, TypeError) and not isinstance(seen, str) and seen is not None
+                    ctx.violation('counterexample', 'to_file(<%s>, fileformat=%r) raised %s: %s' % (dlabel, request, type(exc).__name__, str(exc)[:100]),
+                                  dict(input=descr, implementation=[type(exc).__name__, str(exc)[:160]]), True,
+                                  site='guess_output_format' if guessing else 'to_file',
+                                  cls='file-object-name-not-a-string' if guessing else 'raises-' + type(exc).__name__)
+                    continue
+                got = c06.format_of_text(text)
+                if got != expected:
+                    ctx.disagreements_checked += 1
+                    ctx.violation('counterexample', 'to_file(<%s>, fileformat=%r) of %s wrote %s, the documented format is %s' %
+                                  (dlabel, request, 'an OPB object' if is_opb else 'a CNF object', got, expected),
+                                  dict(input=descr, text_start=text[:200], documented='guess_output_format / OPB.to_file: explicit request, else the name ends in .tex / .opb, else the default of the class'),
+                                  True, site='guess_output_format',
+                                  cls='bytes-name-extension-ignored' if isinstance(seen, bytes) and request is None else 'format-%s-instead-of-%s' % (got, expected))
+                    continue
+                judge_written(ctx, 'shapes-destination', descr, text, expected, F, is_opb, names)
+    # ---- (2) file names: to_file(name), `cnfgen -o name`, `pbgen -o name`, with and without an explicit format
+    from cnfgen.clitools.cnfgen import cli as cnfgen_cli
+    from cnfgen.clitools.pbgen import cli as pbgen_cli
+    Fc = cnfgen_cli(['cnfgen', 'php', '3', '2'], mode='formula')
+    Fo = pbgen_cli(['pbgen', 'php', '3', '2'], mode='formula')
+    table = [(nm, 'dimacs') for nm in c06.DIMACS_NAMES] + [(nm, 'latex') for nm in c06.LATEX_NAMES] + [(nm, 'opb') for nm in c06.OPB_NAMES]
+    def fmt_of(nm, request, how):
+        if how == 'pbgen -o name':       # usage of pbgen: "--output-format {latex,opb} ... (default: opb)": the name plays no role
+            return request or 'opb'
+        return documented_format(nm, request, how.startswith('OPB'))
+    jobs = []
+    for k, (nm, _by) in enumerate(table):
+        for request in (None, 'latex', 'opb'):
+            for how in ('OPB.to_file(name)', 'CNF.to_file(name)', 'cnfgen -o name', 'pbgen -o name'):
+                if fmt_of(nm, request, how) == 'dimacs':
+                    continue
+                if how.endswith('-o name') and quick and not (request is None and (k % 5 == 0 or nm in ('formula_opb', 'cover_vertex', 'y.tex', 'y.opb', 'a.tex.opb'))):
+                    continue
+                if quick and request is not None and (k + len(how)) % 3:
+                    continue
+                jobs.append((nm, request, how))
+    roots = {}
+    for how in ('OPB.to_file(name)', 'CNF.to_file(name)', 'cnfgen -o name', 'pbgen -o name'):
+        for request in (None, 'latex', 'opb'):
+            roots[(how, request)] = os.path.join(tmp, 'names-%s-%s' % (how.split('(')[0].replace(' ', ''), request))
+            for nm, _ in table:
+                os.makedirs(os.path.dirname(os.path.join(roots[(how, request)], nm)), exist_ok=True)
+
+    def child(prog, argv):
+        import subprocess
+        env = dict(os.environ, PYTHONPATH=lib.REPO, CNFGEN_VERIF='1')
+        code = 'import sys; sys.argv = %r; from cnfgen.clitools.%s import main; main()' % ([prog] + argv, prog)
+        r = subprocess.run([lib.PY, '-W', 'ignore', '-c', code], cwd=lib.REPO, env=env, stdout=subprocess.PIPE, stderr=subprocess.PIPE, timeout=300)
+        return r.returncode, r.stderr.decode('utf-8', 'replace')
+
+    def do(job):
+        nm, request, how = job
+        p = os.path.join(roots[(how, request)], nm)
+        if how.endswith('to_file(name)'):
+            try:
+                (Fo if how.startswith('OPB') else Fc).to_file(p, fileformat=request)
+                res = (0, '')
+            except Exception as e:  # noqa
+                res = (type(e).__name__, str(e)[:160])
+        else:
+            code, err = child(how.split(' ')[0], ['-o', p] + (['-of', request] if request else []) + ['php', '3', '2'])
+            res = (code, err[-300:])
+        try:
+            with open(p, 'r', newline='', encoding='utf-8') as f:
+                text = f.read()
+        except OSError:
+            text = None
+        return res, text
+    cli_jobs = [j for j in jobs if j[2].endswith('-o name')]
+    with ThreadPoolExecutor(max_workers=4) as ex:
+        cli_res = dict(zip(cli_jobs, ex.map(do, cli_jobs)))
+    for job in jobs:
+        nm, request, how = job
+        is_opb = how in ('OPB.to_file(name)', 'pbgen -o name')
+        res, text = cli_res[job] if job in cli_res else do(job)
+        expected = fmt_of(nm, request, how)
+        descr = dict(file_name=nm, fileformat=request, how=how, formula='php 3 2')
+        ctx.count('shapes-file-name', job, True, sample=descr)
+        ctx.tally('shapes file name: documented format', '%s%s' % (expected, ' (explicit)' if request else ' (by name)' if nm.endswith(('.tex', '.opb')) else ' (default of the class)'))
+        ctx.tally('shapes file name: how', how)
+        if res[0] != 0 or text is None:
+            ctx.disagreements_checked += 1
+            ctx.violation('counterexample', '%s with the file name %r%s fails: %r' % (how, nm, ' and format %s' % request if request else '', res),
+                          dict(input=descr, implementation=list(res)), True, site='guess_output_format', cls='raises-%s' % (res[0],))
+            continue
+        got = c06.format_of_text(text)
+        if got != expected:
+            ctx.disagreements_checked += 1
+            ctx.violation('counterexample', '%s with the file name %r%s wrote %s; the documented format is %s (an explicit request wins, else the '
+                          'name must END in .tex / .opb)' % (how, nm, ' and format %s' % request if request else '', got, expected),
+                          dict(input=descr, text_start=text[:200]), True, site='guess_output_format', cls='format-%s-instead-of-%s' % (got, expected))
+            continue
+        judge_written(ctx, 'shapes-file-name', descr, text, expected, Fo if is_opb else Fc, is_opb, False)
+    # ---- (3) names outside ASCII written by a process whose locale is / is not UTF-8
+    runs = []
+    for (en, ex_) in c06.CHILD_ENVS:
+        for fmt in ('opb', 'latex'):
+            runs.append((fmt, 'files', en, ex_, 'cnf'))
+            for kind in ('cnf', 'opb'):
+                if en == 'default' or not quick:
+                    runs.append((fmt, 'stdout', en, ex_, kind))
+    with ThreadPoolExecutor(max_workers=4) as ex:
+        results = list(ex.map(lambda r: c06.unicode_child(tmp, r[0], r[1], r[2], r[3], r[4]), runs))
+    mem_forms = {'cnf': uni_formula(cnfgen, False), 'opb': uni_formula(cnfgen, True)}
+    for (fmt, mode, en, _x, kind0), (d, code, out, err) in zip(runs, results):
+        base = dict(names=c06.UNI_NAMES, format=fmt, destination=mode, environment=en)
+        if mode == 'stdout':
+            descr = dict(base, formula=kind0)
+            ctx.count('shapes-unicode-process', (fmt, mode, en, kind0), True, sample=descr)
+            if code != 0:
+                if 'UnicodeEncodeError' in err and en != 'default':
+                    ctx.tally('shapes unicode: standard output of a process in an ASCII locale', 'UnicodeEncodeError (the encoding of that stream is the caller\'s)')
+                    continue
+                ctx.violation('counterexample', 'writing names outside ASCII to the standard output (%s, %s) fails' % (fmt, en),
+                              dict(input=descr, implementation=[code, err[-300:]]), True, site='to_file', cls='unicode-stdout')
+                continue
+            try:
+                text = out.decode('utf-8')
+            except UnicodeDecodeError:
+                ctx.violation('counterexample', 'the %s text written to the standard output (%s) is not UTF-8' % (fmt, en),
+                              dict(input=descr, stdout_bytes=repr(out[:300])), True, site='to_file', cls='unicode-file-encoding')
+                continue
+            judge_written(ctx, 'shapes-unicode-process', descr, text, fmt, mem_forms[kind0], kind0 == 'opb', True)
+            continue
+        try:
+            res = json.loads(out.decode('utf-8'))
+        except Exception:  # noqa
+            ctx.violation('counterexample', 'the process writing names outside ASCII (%s, %s) died' % (fmt, en), dict(input=base, implementation=[code, err[-400:]]),
+                          True, site='to_file', cls='unicode-process')
+            continue
+        ext = {'opb': 'opb', 'latex': 'tex'}[fmt]
+        for kind in ('cnf', 'opb'):
+            for key, fname in ((kind + ':name', kind + '-name.out'), (kind + ':name-by-extension', kind + '-ext.' + ext), (kind + ':fileobj', kind + '-fileobj.out'),
+                               (kind + ':non-ascii-path', None)):
+                descr = dict(base, formula=kind, destination=key)
+                if key not in res:
+                    continue
+                ctx.count('shapes-unicode-process', (fmt, key, en), True, sample=descr)
+                if res[key] != 'ok':
+                    ctx.disagreements_checked += 1
+                    ctx.violation('counterexample', 'to_file (%s, %s) of a formula with names outside ASCII raised %s in a process with %s' % (key, fmt, res[key], en),
+                                  dict(input=descr, implementation=res[key]), True, site='to_file', cls='unicode-raises-%s' % res[key][0])
+                    continue
+                if fname is None:
+                    cands = [f for f in os.listdir(os.fsencode(d)) if f.startswith(kind.encode() + b'-') and f.endswith(b'.' + ext.encode()) and f != (kind + '-ext.' + ext).encode()]
+                    pth = os.path.join(os.fsencode(d), cands[0]) if cands else None
+                else:
+                    pth = os.path.join(d, fname)
+                try:
+                    with open(pth, 'rb') as f:
+                        text = f.read().decode('utf-8')
+                except Exception as e:  # noqa
+                    ctx.disagreements_checked += 1
+                    ctx.violation('counterexample', 'the %s file written (%s) with names outside ASCII by a process with %s is not UTF-8 text' % (fmt, key, en),
+                                  dict(input=descr, error=str(e)[:100]), True, site='to_file', cls='unicode-file-encoding')
+                    continue
+                got = c06.format_of_text(text)
+                if got != fmt:
+                    ctx.violation('counterexample', 'to_file (%s) wrote %s instead of %s' % (key, got, fmt), dict(input=descr, text_start=text[:200]), True,
+                                  site='guess_output_format', cls='format-%s-instead-of-%s' % (got, fmt))
+                    continue
+                judge_written(ctx, 'shapes-unicode-process', descr, text, fmt, mem_forms[kind], kind == 'opb', True)
+    shutil.rmtree(tmp, ignore_errors=True)
+    ctx.note('shapes: %.0f s' % (time.time() - t0))
+
+
+documented_format = c06.documented_format
+
+
+# --------------------------------------------------------------------------
+# history: ONE formula object built by a random sequence of public API calls and rendered again and again (OPB text,
+# LaTeX rows, LaTeX document, in turn), with edits in between and destinations that are reused
+# --------------------------------------------------------------------------
+def run_history(ctx, cnfgen, quick):
+    import random
+    import time
+    from cnfgen.formula.opb import OPB
+    CNF = cnfgen.CNF
+    t0 = time.time()
+    snaps = []
+    paths = {'opb': c06.tmp_path('history.opb'), 'latex': c06.tmp_path('history.tex')}
+    for run_no in range(30 if quick else 400):
+        r = random.Random(ctx.rng.randrange(1 << 30))
+        is_opb = run_no % 3 != 0
+        F = (OPB if is_opb else CNF)(description=r.choice(['history %d' % run_no, 'two\nlines', 'under_score']))
+        log = []
+        big_run = run_no % 6 == 2
+        for step in range(r.randint(4, 12)):
+            n = F.number_of_variables()
+            op = r.choice(['add_clause', 'add_constraint', 'add_constraint', 'cardinality', 'parity', 'raise', 'raise-to-threshold', 'new_variable',
+                           'new_block', 'header-set', 'header-del', 'empty', 'many-rows', 'big-coefficient'])
+
+            def lits(k):
+                return [r.choice([1, -1]) * r.randint(1, n) for _ in range(k)]
+            try:
+                if op == 'add_clause' and n:
+                    F.add_clause(lits(r.choice([1, 2, 3, 17, 40])))
+                elif op == 'add_constraint' and n and is_opb:
+                    F.add_constraint([(r.randint(-4, 6), l) for l in lits(r.choice([0, 1, 2, 3, 17]))] + [r.choice(['>=', '==', '<=', '<', '>']), r.randint(-5, 9)])
+                elif op == 'big-coefficient' and n and is_opb:
+                    t = r.choice(COEFS[3:])
+                    F.add_constraint([(t, lits(1)[0]), (-t - 1, lits(1)[0]), (1, lits(1)[0]), r.choice(['>=', '==', '<=']), r.choice([t, -t, 0])])
+                    op += ' %d' % t
+                elif op == 'cardinality' and n and is_opb:
+                    getattr(F, r.choice(['cardinality_geq', 'cardinality_leq', 'cardinality_eq']))(lits(r.randint(1, 4)), r.randint(0, 3))
+                elif op == 'parity' and n and is_opb:
+                    F.add_parity(sorted(set(abs(l) for l in lits(r.randint(1, 3)))), r.randint(0, 1))
+                elif op == 'raise':
+                    F.update_variable_number(n + r.choice([2, 3, 5, 10]))
+                elif op == 'raise-to-threshold':
+                    t = r.choice([x for x in c06.THRESHOLDS if x > n] or [n + 2])
+                    if t <= 300 or big_run:
+                        F.update_variable_number(t)
+                    op += ' %d' % t
+                elif op == 'new_variable':
+                    F.new_variable(r.choice(['v', 'w_%d' % step, 'u^%d_' % step, 'caf\xe9%d' % step, 'k']) + str(run_no * 100 + step))
+                elif op == 'new_block':
+                    F.new_block(r.randint(1, 3), r.randint(1, 4), label='b%d_{{{{{{}},{{}}}}}}' % step)
+                elif op == 'header-set':
+                    F.header[r.choice(['note', 'k%d' % step, 'description'])] = r.choice(['v', 'x' * 300, 'a\r\nb', str(step), 'under_score'])
+                elif op == 'header-del' and len(F.header) > 1:
+                    k = r.choice([k for k in F.header if k != 'description'] or ['description'])
+                    if k != 'description':
+                        del F.header[k]
+                elif op == 'empty':
+                    if is_opb and r.random() < 0.5:
+                        F.add_constraint(['>=', r.randint(-1, 1)])
+                    else:
+                        F.add_clause([])
+                elif op == 'many-rows' and n and big_run:
+                    m = r.choice([34, 35, 36, 70, 71, 256, 257])
+                    for i in range(m):
+                        F.add_clause([1 + i % n, -(1 + (i * 5) % n)])
+                    op += ' %d' % m
+                else:
+                    continue
+            except ValueError as e:
+                op += ' (refused: %s)' % str(e)[:40]
+            log.append(op)
+            ctx.tally('history operation', op.split(' ')[0])
+            if r.random() < 0.5 or step == 0:
+                n = F.number_of_variables()
+                labels = list(F.all_variable_labels())
+                tex_labels = list(F.all_variable_labels(default_label_format='x_{}'))
+                c = dict(label='history %d step %d' % (run_no, step), cls='history', is_opb=is_opb, F=F, n=n, labels=labels, tex_labels=tex_labels,
+                         mem=mem_constraints(F, is_opb), hdr_items=c06.header_items(F), history=list(log))
+                what = r.choice(['opb', 'opb', 'latex', 'both'])
+                try:
+                    if what in ('opb', 'both'):
+                        via = r.choice(['StringIO', 'name', 'name', 'fileobj', 'stdout'])
+                        c['header'], c['names'], c['via'] = r.random() < 0.7, r.random() < 0.5, via
+                        c['opb_text'] = c06.write_via(F, via, c['header'], c['names'], paths['opb'], fmt='opb')
+                        ctx.tally('history via', 'opb ' + via)
+                    if what in ('latex', 'both'):
+                        c['snippet'] = F.to_latex()
+                        docs = []
+                        for header in (False, True):
+                            extra = '' if header else 'Some extra text & more.\n'
+                            via = r.choice(['StringIO', 'name', 'fileobj', 'stdout'])
+                            docs.append((header, extra, c06.write_via(F, via, header, False, paths['latex'], fmt='latex', extra_text=extra), None))
+                            ctx.tally('history via', 'latex ' + via)
+                        c['docs'] = docs
+                except Exception as e:  # noqa
+                    ctx.violation('counterexample', 'rendering a formula after a sequence of edits raised %s' % type(e).__name__,
+                                  dict(input=dict(history=log, kind='OPB' if is_opb else 'CNF'), implementation=[type(e).__name__, str(e)[:160]]), True,
+                                  site='to_file', cls='history-raises-' + type(e).__name__)
+                    continue
+                snaps.append(c)
+    run_small(ctx, cnfgen, quick, snaps, 'history-')
+    ctx.note('history: %.0f s' % (time.time() - t0))
+
+
 def build(ctx, cnfgen, quick):
     """[(label, cls, is_opb, thunk)]"""
     from cnfgen.formula.opb import OPB
@@ -744,8 +1100,9 @@ def run_small(ctx, cnfgen, quick, formulas, pre):
     jobs = []
     for c in cases:
         F = c['F']
-        if 'opb_text' in c:          # a snapshot written by the caller (history stream)
-            jobs.append(dict(c=c, header=c['header'], names=c['names'], text=c['opb_text'], wexc=None))
+        if 'mem' in c:               # a snapshot written by the caller (history stream)
+            if 'opb_text' in c:
+                jobs.append(dict(c=c, header=c['header'], names=c['names'], text=c['opb_text'], wexc=None))
             continue
         for header in (False, True):
             for names in (False, True):
@@ -838,7 +1195,7 @@ def run_small(ctx, cnfgen, quick, formulas, pre):
     jobs = []
     for c in cases:
         F = c['F']
-        if 'opb_text' in c and 'snippet' not in c:
+        if 'mem' in c and 'snippet' not in c:
             continue
         if c.get('only', {}).get('latex') is False:
             continue
